@@ -32,12 +32,14 @@ ASSUMPTIONS = ['products of two neighbouring core scales stay above the document
 
 def build(c, seed):
     pat = c['pat']
-    if pat == 'illc':          # every slice nearly the same vector: unfoldings ill-conditioned from both sides (cond ~ 1e7)
+    if pat in ('illc', 'illc3', 'illc5'):   # every slice nearly the same vector: unfoldings ill-conditioned from both sides (cond ~ 1e7 / 1e3 / 1e5:
+        # the whole range matters - a shortcut that guards itself against cond > 1e6 is wrong in the band below its guard)
+        eps_ = {'illc': 1e-7, 'illc3': 1e-3, 'illc5': 1e-5}[pat]
         base = space.tt(c['shape'], c['ranks'], 'gen', seed, tag=4)
         Y = []
         for G in base:
             v = G[:1, :, :1] * 0 + np.linspace(1.0, 2.0, G.shape[1]).reshape(1, -1, 1)
-            Y.append(v + 1e-7 * G)
+            Y.append(v + eps_ * G)
         return Y
     if pat == 'zslice':
         Y = space.tt(c['shape'], c['ranks'], 'gen', seed, tag=4)
@@ -341,10 +343,10 @@ def _leaves(tier, seed):
                     if scales is not None and abs(sum(scales)) <= 900 and (tier != 'quick' or d <= 3):
                         out.append(dict(shape=sh, ranks=rk, pat='gen', scales=scales, seed=seed))
     for sh, rk in (([2, 150], [1, 2, 1]), ([150, 2], [1, 3, 1]), ([3, 40, 2], [1, 3, 2, 1]), ([2] * 8, [1, 2, 3, 4, 4, 3, 2, 2, 1]), ([1, 60, 1], [1, 4, 4, 1])):
-        for pat in ('gen', 'dup', 'zslice', 'illc'):
+        for pat in ('gen', 'dup', 'zslice', 'illc', 'illc3', 'illc5'):
             out.append(dict(shape=sh, ranks=rk, pat=pat, seed=seed))
     for sh, rk in (([3, 80, 2], [1, 3, 2, 1]), ([2, 100, 3], [1, 2, 3, 1]), ([3, 3, 3], [1, 3, 3, 1]), ([2, 3, 2], [1, 2, 2, 1])):
-        for pat in ('illc', 'gen'):
+        for pat in ('illc', 'illc3', 'illc5', 'gen'):
             out.append(dict(shape=sh, ranks=rk, pat=pat, seed=seed))
     return out
 
